@@ -126,7 +126,8 @@ def rand_env(r):
         'trans': (tr := [r.randrange(7) for _ in range(r.randint(1, 5))]),
         # one composition in four is written as a chain of chains (same functions, same order)
         'trans_nesting': (lambda n: [k for k in ([n - n // 2, n // 2] if n >= 2 else [n]) if k] if r.random() < 0.25 else None)(len(tr)),
-        'obs': {'name': oname, 'area': (-(h - 1), 0, -half, half)},
+        # one view in four is off-centre (odd width, the agent still inside it): nothing requires the agent in the middle column
+        'obs': {'name': oname, 'area': (lambda k: (-(h - 1), 0, -(half + k), half - k))(r.randint(-half, half) if r.random() < 0.25 else 0)},
         'reward': {'name': 'reduce_sum', 'parts': parts},
         'term': comp.rand_term(r, rtypes + [TYN['MovingObstacle']]),
     }
